@@ -138,9 +138,45 @@ pub trait Queue: Sized + Clone {
     /// serde's in-place entry point (`Deserialize::deserialize_in_place`) on JSON text
     #[cfg(feature = "std")]
     fn from_json_in_place(dst: &mut Self, s: &str) -> Result<(), String>;
+    /// through a sequence deserializer announcing `hint` elements
+    #[cfg(feature = "std")]
+    fn from_pairs_hinted(v: Vec<((u32, u32), i64)>, hint: Option<usize>) -> Result<Self, String>;
     /// through serde's `SeqDeserializer` over a Vec (exact size hint, not self describing)
     #[cfg(feature = "std")]
     fn from_pairs(v: Vec<((u32, u32), i64)>) -> Result<Self, String>;
+}
+
+/// A sequence whose announced length is independent of what it delivers.
+#[cfg(feature = "std")]
+pub struct HintSeq {
+    pub items: std::vec::IntoIter<serde_json::Value>,
+    pub hint: Option<usize>,
+}
+#[cfg(feature = "std")]
+impl<'de> serde::de::SeqAccess<'de> for HintSeq {
+    type Error = serde_json::Error;
+    fn next_element_seed<T: serde::de::DeserializeSeed<'de>>(&mut self, seed: T) -> Result<Option<T::Value>, serde_json::Error> {
+        match self.items.next() {
+            Some(v) => seed.deserialize(v).map(Some),
+            None => Ok(None),
+        }
+    }
+    fn size_hint(&self) -> Option<usize> {
+        self.hint
+    }
+}
+#[cfg(feature = "std")]
+pub struct HintDe(pub HintSeq);
+#[cfg(feature = "std")]
+impl<'de> serde::Deserializer<'de> for HintDe {
+    type Error = serde_json::Error;
+    fn deserialize_any<V: serde::de::Visitor<'de>>(self, v: V) -> Result<V::Value, serde_json::Error> {
+        v.visit_seq(self.0)
+    }
+    serde::forward_to_deserialize_any! {
+        bool i8 i16 i32 i64 i128 u8 u16 u32 u64 u128 f32 f64 char str string bytes byte_buf option unit
+        unit_struct newtype_struct seq tuple tuple_struct map struct enum identifier ignored_any
+    }
 }
 
 fn snap_of(s: priority_queue::VerifSnapshot<'_, Key, Prio>) -> Snap {
@@ -312,6 +348,12 @@ macro_rules! common_methods {
         #[cfg(feature = "std")]
         fn from_value(v: serde_json::Value) -> Result<Self, String> {
             serde_json::from_value(v).map_err(|e| e.to_string())
+        }
+        #[cfg(feature = "std")]
+        fn from_pairs_hinted(v: Vec<((u32, u32), i64)>, hint: Option<usize>) -> Result<Self, String> {
+            use serde::Deserialize;
+            let vals: Vec<serde_json::Value> = v.into_iter().map(|((id, tag), p)| serde_json::json!([[id, tag], p])).collect();
+            <Self as Deserialize>::deserialize(HintDe(HintSeq { items: vals.into_iter(), hint })).map_err(|e| e.to_string())
         }
         #[cfg(feature = "std")]
         fn from_pairs(v: Vec<((u32, u32), i64)>) -> Result<Self, String> {
